@@ -5,8 +5,9 @@ CONSTANTS
   Tags = {"A", "B"}
   EmitEdges = FALSE
   WithFaults = TRUE
+  TrackPeak = FALSE
 VIEW View
-INVARIANTS TypeOK Representation NoLeakByConstruction
+INVARIANTS TypeOK Representation NoLeakByConstruction PeakIsHistory
 PROPERTIES OnlyNamedObjectsChange FaultsAreClean
 ACTION_CONSTRAINT Emit
 CHECK_DEADLOCK FALSE
